@@ -214,6 +214,16 @@ func (v *FnVC) init(key string) string {
 			v.init("nextref")
 			fmt.Fprintf(&v.body, "(assert (forall ((r! Int)) (! (< (select %s r!) |nextref@0|) :pattern ((select %s r!)))))\n", n, n)
 		}
+		// the ghost state of an object that does not exist yet is the zero state
+		if b, ok := et.Underlying().(*types.Basic); ok && b.Info()&(types.IsInteger|types.IsBoolean) != 0 {
+			zero := "0"
+			if b.Info()&types.IsBoolean != 0 {
+				zero = "false"
+			}
+			v.ensureNextref()
+			v.init("nextref")
+			fmt.Fprintf(&v.body, "(assert (forall ((r! Int)) (! (=> (>= r! |nextref@0|) (= (select %s r!) %s)) :pattern ((select %s r!)))))\n", n, zero, n)
+		}
 	}
 	if t, ok := v.w.heapTypes[key]; ok && strings.HasPrefix(key, "E|") {
 		if a := v.allocatedAt(Term{"(select (select " + n + " r!) j!)", t}, "|nextref@0|"); a != "true" {
@@ -1471,20 +1481,11 @@ func (v *FnVC) ghostSets(anchor string, env *Env) {
 		if gs[0] != anchor {
 			continue
 		}
-		g, ok := v.w.cs.Ghosts[gs[1]]
-		if !ok {
-			panic(specError{"ghost-set: unknown ghost variable " + gs[1]})
+		e2 := env
+		if e2 == v.initEnv {
+			e2 = v.newEnv(v.st, v.initEnv)
+			e2.entry = true
 		}
-		e, err := ParseExpr(gs[2])
-		if err != nil {
-			panic(specError{"ghost-set: " + err.Error()})
-		}
-		if env == v.initEnv {
-			env = v.newEnv(v.st, v.initEnv)
-			env.entry = true
-		}
-		t := v.specTerm(e, env, nil)
-		key := v.w.ghostKey(g)
-		v.set(key, v.heapSort(key), t.S)
+		v.ghostAssign(gs[1], gs[2], e2)
 	}
 }
